@@ -97,6 +97,18 @@ def _partition(ctx):
            "no unit is a row of two frames" if dup is None else f"a unit with [{sh(dup[0])}] is in {dup[1]}: counted twice")
     ctx.ob("C01.R1.no-ghost", f"{f.qualname}|only units of feed/baseline", ghost is None, f.where(),
            "no unit outside feed and baseline join appears" if ghost is None else f"phantom unit in {ghost[1]}")
+    # the 'reporting' column of every group is the SUM of this flag over the three frames (R3), so "reporting = number of modelled
+    # units at or above the threshold" needs the flag to be 1 on the reporting frame and 0 on every row of the other two
+    from ..frames import Frames
+    from ..unitsplit import CUR, DATA
+    from .c09 import _const_col
+    Fm = Frames(us.b, {DATA: "data", CUR: "current"})
+    for name, fr, want in (("reporting", us.R, 1), ("nonreporting", us.N, 0), ("unexpected + non-modelled", us.U, 0)):
+        rv = _const_col(Fm, fr, "reporting")
+        ctx.ob("C01.R1.reporting-flag", f"{f.qualname}|{name}: reporting flag", rv == want, f.where(),
+               f"every row of the {name} frame carries reporting = {want}" if rv == want
+               else f"the {name} frame does not carry reporting = {want} on every row (found {rv}): group 'reporting' counts then include / miss "
+                    f"units that are not modelled reporting units")
     if not structured:
         return
     # de-duplication inside the third frame
